@@ -136,6 +136,12 @@ pub enum Probe {
     DupElements,
     ZeroSized,
     ReserveRehash,
+    GetManyUnchecked,
+    InsertUniqueUnchecked,
+    DrainFold,
+    ExtractSizeHint,
+    EntryOrDefault,
+    IndexOp,
     _Count,
 }
 pub const NPROBE: usize = Probe::_Count as usize;
@@ -212,6 +218,12 @@ pub const PROBE_NAMES: [&str; NPROBE] = [
     "dup_elements",
     "zero_sized",
     "reserve_rehash",
+    "get_many_unchecked",
+    "insert_unique_unchecked",
+    "drain_fold",
+    "extract_size_hint",
+    "entry_or_default",
+    "index_op",
 ];
 
 #[derive(Clone, Debug)]
